@@ -13,3 +13,25 @@ Theorem c33_byte_order_independent : forall cpu1 cpu2 h1 h2 m names,
   maglev hash_byte_order cpu1 h1 h2 m names = maglev hash_byte_order cpu2 h1 h2 m names.
 Proof. exact (byte_order_independent_fixed hash_byte_order source_byte_order_fixed). Qed.
 Print Assumptions c33_byte_order_independent.
+
+(* With the byte order the source really names, the specification oracle accepts every run of the model
+   (any table size, names, insertion orders covering the same names). *)
+From Verif.C33 Require Import MeetsSpec.
+Lemma model_meets_spec_source : forall c,
+  c_bo c = hash_byte_order ->
+  (forall ord, In ord (c_orders c) -> forall x, In x (apply_order (c_names c) ord) <-> In x (c_names c)) ->
+  c_obs c = model_tables c ->
+  (forall o, In o (c_obs_be c) -> o = model_other_cpu c) ->
+  check_case env (CLut c) = (true, true).
+Proof.
+  intros c Hbo. apply model_meets_spec_case. rewrite Hbo. exact source_byte_order_fixed.
+Qed.
+
+Theorem c33_model_meets_spec_source : forall c,
+  c_bo c = hash_byte_order ->
+  (forall ord, In ord (c_orders c) -> forall x, In x (apply_order (c_names c) ord) <-> In x (c_names c)) ->
+  c_obs c = model_tables c ->
+  (forall o, In o (c_obs_be c) -> o = model_other_cpu c) ->
+  check_case env (CLut c) = (true, true).
+Proof. exact model_meets_spec_source. Qed.
+Print Assumptions c33_model_meets_spec_source.
